@@ -3,23 +3,52 @@ C06 -- the main loop survives anything its children, listeners or the kernel do.
 L2 with fault injection at the os level (every realistic errno of fork/pipe/kill/waitpid/read/write, singly at every call index of a
 base scenario, and random combinations), plus hostile child output and listener protocol streams.
 """
-import errno
+import errno, os
 from props import l2common
 import l2
 
 ID = 'C06'
 LEAN_PROPS = 'SupervisorModel.Props.C06'
-DRIVER = 'drv_c02'
-GENERATED = ['Proc', 'Sup']
+DRIVER = 'drv_c06'          # the `sup` model of drv_c02 plus `mkpipes` (Model/Robust.lean)
+GENERATED = ['Proc', 'Sup', 'Robust']
 TRUSTED = l2common.TRUSTED
-ASSUMPTIONS = ["realistic errno table per call: fork {EAGAIN, ENOMEM}, pipe {EMFILE, ENFILE}, kill {EPERM, ESRCH}, waitpid {EINTR, ECHILD}, "
+ASSUMPTIONS = ["realistic errno table per call: fork {EAGAIN, ENOMEM}, pipe {EMFILE, ENFILE}, fcntl {EBADF, EINVAL}, kill {EPERM, ESRCH}, waitpid {EINTR, ECHILD}, "
                "read {EINTR, EBADF, EAGAIN}, write {EPIPE, EAGAIN}; errnos outside it (e.g. EIO on a pipe read) are not claimed"]
-RULE = ("fault enumeration: for a base scenario, every (call kind, call index, errno) single fault is injected and the scenario re-run; plus random "
-        "scenarios with random faults, hostile output (capture tags, ANSI, invalid UTF-8) and listener streams (garbage, negative/huge RESULT lengths); "
+RULE = ("fault enumeration: for a base scenario, every (call kind, call index, errno) single fault is injected and the scenario re-run "
+        "(call kinds fork, pipe, fcntl, kill, waitpid, read, write, counted at the os-level seam, i.e. inside the real make_pipes/readfd/...); "
+        "every pipe()/fcntl()/fork() call of a spawn-path base scenario (three-pipe, two-pipe, loop- and API-driven spawns); plus random "
+        "scenarios with random faults, hostile output (capture tags, ANSI, invalid UTF-8) and listener streams (garbage, negative/huge RESULT "
+        "lengths, READY/RESULT lines with a byte >= 0x80 at every position, read by the guarded loop and by finish()'s drain()); "
         "non-trivial = at least one fault hit or hostile byte consumed; distinct = distinct trace")
 
 ERRNOS = {'fork': [errno.EAGAIN, errno.ENOMEM], 'pipe': [errno.EMFILE, errno.ENFILE], 'kill': [errno.EPERM, errno.ESRCH],
-          'waitpid': [errno.EINTR, errno.ECHILD], 'read': [errno.EINTR, errno.EBADF, errno.EAGAIN], 'write': [errno.EPIPE, errno.EAGAIN]}
+          'waitpid': [errno.EINTR, errno.ECHILD], 'read': [errno.EINTR, errno.EBADF, errno.EAGAIN], 'write': [errno.EPIPE, errno.EAGAIN],
+          'fcntl': [errno.EBADF, errno.EINVAL]}
+
+
+# ---- listener protocol lines with bytes >= 0x80 at every position ---------------------------------------------------
+
+HIGH = [b'\xff', b'\xc3', b'\x80', b'\xfe', b'\xe2\x82', b'\xc3\xa9']      # invalid alone, truncated sequences, one valid non-ASCII char
+LINES = [b'READY\n', b'RESULT 2\n', b'RESULT 0\n', b'RESULT 12\n', b'RESULT -1\n', b'RESULT \n', b'RESULT 2']
+
+
+def mutants(line, highs=HIGH):
+    """every way of putting a byte >= 0x80 (or a short non-ASCII sequence) at a position of a protocol line: replacing the
+    byte there, or inserted in front of it (position len(line) = appended)"""
+    out = []
+    for i in range(len(line) + 1):
+        for h in highs:
+            out.append(line[:i] + h + line[i:])
+            if i < len(line):
+                out.append(line[:i] + h + line[i + 1:])
+    return out
+
+
+def mutant(rng):
+    line = rng.choice(LINES)
+    i = rng.randrange(len(line) + 1)
+    h = rng.choice(HIGH)
+    return line[:i] + h + (line[i:] if rng.random() < 0.5 else line[i + 1:])
 
 HOSTILE = [b'RESULT -1\nx', b'RESULT 99999999999999999999\n', b'READY\nREADY\n', b'\xff\xfe\x00garbage', b'RESULT 2\nOKREADY\n',
            b'<!--XSUPERVISOR:BEGIN-->abc', b'\x1b[31mred\x1b[0m', b'RESULT 0\n', b'RESULT x\n', b'GARBAGE2\nOK']
@@ -36,7 +65,8 @@ def hostile_scenario(rng):
             acts.append(('lateio', rng.randrange(1, 1 << 30)))
         r = rng.random()
         if r < 0.5:
-            acts.append(('write', rng.choice(['w0', 'l0', 'w1']), rng.choice(['stdout', 'stderr']), rng.choice(HOSTILE)))
+            acts.append(('write', rng.choice(['w0', 'l0', 'w1']), rng.choice(['stdout', 'stderr']),
+                         rng.choice(HOSTILE) if rng.random() < 0.7 else mutant(rng) + rng.choice([b'', b'OK', b'READY\n'])))
         if rng.random() < 0.2:
             acts.append(('exit', rng.choice(['w0', 'l0', 'w1']), rng.choice([0, 1, -9])))
         if rng.random() < 0.2:
@@ -70,10 +100,11 @@ def listener_scenario(rng):
              dict(name='l0', group='pool', gprio=1, startsecs=0, autorestart='true', listener=dict(events=['PROCESS_STATE', 'TICK_5'], buffer_size=3))]
     script = [(1024, [('lateio', rng.randrange(1, 1 << 30), rng.choice([0.5, 0.5, 0.8, 1.0]))]), (1024, [])]
     for _ in range(rng.choice([4, 8])):
-        script.append((1024, [('write', 'l0', 'stdout', b'READY\n'), ('exit', 'w0', rng.choice([0, 1]))]))
+        script.append((1024, [('write', 'l0', 'stdout', b'READY\n' if rng.random() < 0.9 else mutant(rng)), ('exit', 'w0', rng.choice([0, 1]))]))
         for _ in range(rng.choice([1, 2])):
             script.append((rng.choice([512, 1024]), []))
-        acts = [('write', 'l0', 'stdout', rng.choice(ANSWERS))]
+        ans = rng.choice(ANSWERS) if rng.random() < 0.6 else mutant(rng) + rng.choice([b'', b'OK', b'OKREADY\n', b'READY\n', b'\n'])
+        acts = [('write', 'l0', 'stdout', ans)]
         if rng.random() < 0.5:
             acts.append(('exit', 'l0', rng.choice([0, 1])))
         script.append((1024, acts))
@@ -81,51 +112,207 @@ def listener_scenario(rng):
     return progs, script + [(1024, [])] * 3
 
 
-def single_faults(ctx, base):
-    """every (call, index, errno) of the base scenario"""
+def listener_line_cases():
+    """deterministic: a listener that has been sent an event (BUSY) -- or is still awaiting READY (ACKNOWLEDGED) -- writes
+    one mutated protocol line (a byte >= 0x80 at every position in turn) and exits; the line is read either by the guarded
+    dispatcher loop (every readable pipe reported by poll) or, written after poll() returned, by the unguarded drain() of finish()"""
+    progs = [dict(name='w0', group='g', startsecs=0, autorestart='true'),
+             dict(name='l0', group='pool', gprio=1, startsecs=0, autorestart='true', listener=dict(events=['PROCESS_STATE'], buffer_size=3))]
+    for busy in (True, False):
+        for line in ([b'RESULT 2\n', b'RESULT 0\n', b'RESULT 12\n'] if busy else [b'READY\n']):
+            for m in mutants(line, [b'\xff', b'\xc3', b'\xc3\xa9']):
+                for tail in ((b'', b'OKREADY\n') if busy else (b'',)):
+                    for late in (True, False):
+                        script = [(1024, []), (1024, [])]
+                        if busy:
+                            script += [(1024, [('write', 'l0', 'stdout', b'READY\n'), ('exit', 'w0', 0)]), (1024, []), (1024, [])]
+                        acts = [('write', 'l0', 'stdout', m + tail), ('exit', 'l0', 0)]
+                        if late:
+                            acts.insert(0, ('lateio', 1, 0.0))        # nothing is reported readable any more: read at reap
+                        script += [(1024, acts), (1024, [('lateio', 1, 1.0)]), (1024, [('write', 'l0', 'stdout', b'READY\n'), ('exit', 'w0', 1)]),
+                                   (1024, []), (1024, [])]
+                        yield progs, script
+
+
+def fault_points(ctx, base, calls=None, all_indices=False):
+    """every (call, index, errno) of the base scenario: the base is run once to count the invocations of each fallible call"""
     progs, script = base
     k, _ = l2.run_scenario(progs, script)
-    counts = {}
-    for r in k.log:
-        kind = {'fork': 'fork', 'pipe': 'pipe', 'kill': 'kill', 'wait': 'waitpid', 'read': 'read', 'write': 'write'}.get(r['kind'])
-        if kind:
-            counts[kind] = counts.get(kind, 0) + 1
-    # a fault "at index i" = skip i calls, then fail one: expressed with the script's fault action at pass 0 and a skip counter
     out = []
-    for call, n in sorted(counts.items()):
-        idxs = range(n) if ctx.tier == 'thorough' else sorted(set([0, 1, n // 2, n - 1]) & set(range(n)))
+    for call, n in sorted(k.calls.items()):
+        if calls is not None and call not in calls:
+            continue
+        if ctx.tier == 'thorough' or all_indices:
+            idxs = range(n)
+        else:
+            idxs = sorted(set([0, 1, n // 2, n - 1]) & set(range(n)))
         for i in idxs:
             for en in ERRNOS[call]:
                 out.append((progs, script, {call: {i: en}}))
     return out
 
 
+def single_faults(ctx, base):
+    return fault_points(ctx, base)
+
+
+def spawn_path_base(rng):
+    """spawns of every shape: three pipes, two pipes (redirect_stderr), by the loop (autostart, autorestart, backoff retry)
+    and by an API request, interleaved with another process that must stay supervised"""
+    progs = [dict(name='a', group='ga', startsecs=0, autorestart='true', startretries=3),
+             dict(name='b', group='gb', startsecs=rng.choice([0, 1]), autorestart='unexpected', redirect_stderr=True),
+             dict(name='c', group='gc', autostart=False, startsecs=0, autorestart='false')]
+    script = [(1024, []), (1024, [('rpc', 1, 'supervisor.startProcess', ('gc:c', rng.random() < 0.5))]), (1024, []),
+              (1024, [('exit', 'a', 1)]), (1024, []), (1024, [('exit', 'b', 2), ('exit', 'c', 0)]), (1024, []),
+              (1024, [('rpc', 2, 'supervisor.startProcess', ('gc:c', False))]), (1024, []), (2048, []),
+              (1024, [('rpc', 3, 'supervisor.stopProcess', ('ga:a', False))]), (1024, []), (1024, [])]
+    return progs, script
+
+
+def run_faulted(ctx, mons, progs2, script2, fault_at, tag):
+    k = l2.SimKernel(progs2, script2)
+    k.fault_at = fault_at
+    k.run()
+    inp = dict(l2.scenario_input(progs2, script2), fault_at={c: {str(i): e for i, e in d.items()} for c, d in fault_at.items()})
+    for m in mons:
+        m(ctx, k, inp)
+    ctx.count(tag + ':' + list(fault_at)[0])
+    if any(r['kind'] == 'fault' for r in k.log):
+        ctx.count(tag + '-hit')
+    ctx.case_done((tag, repr(fault_at), tuple(repr(x) for x in k.log if x['kind'] in ('event', 'fork', 'kill', 'wait'))), True)
+    return k
+
+
+def with_fcntl(rng, scs):
+    """random scenarios: four in ten of the injected pipe() failures become failures of the fcntl() calls that follow the pipes"""
+    for progs, script in scs:
+        script = [(dt, [('fault', 'fcntl', rng.choice(ERRNOS['fcntl']), a[3] if len(a) > 3 else 1)
+                        if a[0] == 'fault' and a[1] == 'pipe' and rng.random() < 0.4 else a for a in acts]) for dt, acts in script]
+        yield progs, script
+
+
+def make_pipes_cases(ctx):
+    """the real Subprocess.spawn -> ProcessConfig.make_dispatchers -> ServerOptions.make_pipes over the simulated kernel, with the
+    i-th pipe()/fcntl() call failing (every i, with and without a stderr pipe): what leaves make_pipes, how many descriptors
+    are open at that moment, whether spawn() returns.  Correspondence with Model/Robust.lean (`case mkpipes`), and monitors."""
+    from simkernel import SimKernel
+
+    class MPKernel(SimKernel):
+        order = None
+        fail_index = None
+        def fault(self, call):
+            if self.order is not None and call in ('pipe', 'fcntl'):
+                self.order.append(call)
+                if self.fail_index == len(self.order) - 1:
+                    en = errno.EMFILE if call == 'pipe' else errno.EBADF
+                    self.rec('fault', call=call, errno=en)
+                    raise OSError(en, 'injected ' + call)
+            return SimKernel.fault(self, call)
+
+    cases, impls = [], []
+    for redirect in (False, True):
+        ops, lines = [], []
+        for i in [None] + list(range(0, 11)):
+            k = MPKernel([dict(name='a', group='ga', autostart=False, startsecs=0, redirect_stderr=redirect)], [])
+            try:
+                k.order, k.fail_index = [], i
+                seen = []
+                orig = k.options.make_pipes
+                def recorder(*a, **kw):
+                    try:
+                        r = orig(*a, **kw)
+                    except BaseException as e:
+                        seen.append(('raised:' + type(e).__name__, len(k.fds), len(k.order), '-'))
+                        raise
+                    nb = ' '.join(str(fd) for fd in sorted(k.fdflags, key=list(k.fdflags).index) if k.fdflags[fd] & os.O_NONBLOCK)
+                    seen.append(('ok ' + ' '.join('%s=%s' % (key, '-' if v is None else v) for key, v in r.items()) if isinstance(r, dict) else 'ok %r' % (r,),
+                                 len(k.fds), len(k.order), nb))
+                    if isinstance(r, dict):
+                        for key in ('stdin', 'stdout', 'stderr'):
+                            if r.get(key) is not None and not k.fdflags.get(r[key], 0) & os.O_NONBLOCK:
+                                ctx.violation('parent-pipe-end-left-blocking:' + key, 'make_pipes() returned a blocking %s descriptor: the main loop can hang on it' % key,
+                                              {'level': 'make_pipes', 'redirect_stderr': redirect, 'fail_index': i})
+                    return r
+                k.options.make_pipes = recorder
+                proc = k.options.process_group_configs[0].make_group().processes['a']
+                try:
+                    proc.spawn()
+                    survived = 'handled'
+                except Exception as e:
+                    survived = 'escapes'
+                    ctx.violation('spawn-raised:' + type(e).__name__, 'spawn() raised %r when the %s call (index %s) of make_pipes failed' % (
+                        e, k.order[-1] if k.order else '?', i), {'level': 'make_pipes', 'redirect_stderr': redirect, 'fail_index': i})
+                what, nopen, ncalls, nb = seen[0] if seen else ('not-called', 0, 0, '-')
+                inp = {'level': 'make_pipes', 'redirect_stderr': redirect, 'fail_index': i}
+                if what.startswith('raised:') and what != 'raised:OSError':
+                    ctx.violation('make-pipes-raised:' + what.split(':')[1], 'make_pipes() raised %s instead of the OSError of the failing %s call' % (
+                        what.split(':')[1], k.order[-1] if k.order else '?'), inp)
+                if what.startswith('raised:') and nopen:
+                    ctx.violation('descriptors-leaked-by-failed-make-pipes', '%d descriptors still open after make_pipes() failed at call %s' % (nopen, i), inp)
+                ops.append('fail %s' % ('-' if i is None else i))
+                lines.append('%s | open:%d | calls:%d | nonblocking:%s | spawn:%s' % (what, nopen, ncalls, nb, survived))
+                ctx.count('make_pipes:' + what.split(' ')[0])
+                ctx.case_done(('make_pipes', redirect, i), True)
+            finally:
+                k.restore()
+        cases.append(('case mkpipes stderr=%d base=5' % (0 if redirect else 1), ops)); impls.append(lines)
+    ctx.correspond('mkpipes', cases, impls)
+
+
+def corpus():
+    """inputs of defects found or seeded earlier, as (programs, script, fault_at)"""
+    two = [dict(name='victim', group='victim', startsecs=0, autorestart='true'), dict(name='other', group='other', startsecs=0, autorestart='true')]
+    lst = [dict(name='other', group='other', startsecs=0, autorestart='true'),
+           dict(name='lst', group='lst', gprio=1, startsecs=0, autorestart='true', listener=dict(events=['PROCESS_STATE'], buffer_size=3))]
+    idle = [(1024, [])] * 4
+    out = []
+    # EMFILE at the second pipe() of the first spawn (seeded C06-5); the same at the first and third, and at an fcntl()
+    for call, idx, en in (('pipe', 1, errno.EMFILE), ('pipe', 0, errno.ENFILE), ('pipe', 2, errno.EMFILE), ('fcntl', 0, errno.EBADF), ('fcntl', 5, errno.EINVAL)):
+        out.append((two, [(1024, [])] * 6, {call: {idx: en}}))
+    # a BUSY listener answers with a result line that is not valid UTF-8 and exits after poll() returned: read by finish() (seeded C06-6)
+    for line in (b'RESULT \xff\xfe2\nOK', b'RESULT caf\xe9\n', b'RESULT 2\xc3\n', b'\xff\xfeRESULT 2\nOK'):
+        for late in (True, False):
+            out.append((lst, [(1024, []), (1024, []), (1024, [('write', 'lst', 'stdout', b'READY\n'), ('exit', 'other', 0)]), (1024, []), (1024, []),
+                              (1024, ([('lateio', 1, 0.0)] if late else []) + [('write', 'lst', 'stdout', line), ('exit', 'lst', 0)]),
+                              (1024, [('lateio', 1, 1.0)])] + idle, None))
+    return out
+
+
 def run(ctx):
     rng = ctx.rng
     mons = [l2.mon_c06, l2.mon_c02]
+    make_pipes_cases(ctx)
+    for progs, script, fault_at in corpus():
+        if fault_at:
+            run_faulted(ctx, mons, progs, script, fault_at, 'corpus-fault')
+        else:
+            l2common.run_all(ctx, [(progs, script)], mons, correspond=False)
+        ctx.count('corpus')
     # 1. random scenarios with random faults (model correspondence included)
-    l2common.run_all(ctx, l2common.scenarios(ctx, 600, 12000, faults_p=1.0), mons)
+    l2common.run_all(ctx, with_fcntl(rng, l2common.scenarios(ctx, 600, 12000, faults_p=1.0)), mons)
     l2common.run_all(ctx, [l2.unknown_scenario(rng) for _ in range(ctx.n(150, 3000))], mons)
     # 2. hostile streams through real dispatchers and a real listener pool (no model correspondence: output is not in Model/Sup)
     l2common.run_all(ctx, [hostile_scenario(rng) for _ in range(ctx.n(300, 6000))], mons, correspond=False)
     l2common.run_all(ctx, [listener_scenario(rng) for _ in range(ctx.n(150, 3000))], mons, correspond=False)
+    l2common.run_all(ctx, listener_line_cases(), mons, correspond=False)
     # 3. exhaustive single faults over base scenarios
     for b in range(ctx.n(2, 12)):
         progs = l2.gen_programs(rng, 3)
         script = l2.gen_script(rng, progs, 14, shutdown=rng.choice([None, 8]), rpcs=True, group_forms=False) + [(1024, [])] * 6
         for progs2, script2, fault_at in single_faults(ctx, (progs, script)):
-            k = l2.SimKernel(progs2, script2)
-            k.fault_at = fault_at
-            k.run()
-            inp = dict(l2.scenario_input(progs2, script2), fault_at={c: {str(i): e for i, e in d.items()} for c, d in fault_at.items()})
-            for m in mons:
-                m(ctx, k, inp)
-            ctx.count('single-fault:' + list(fault_at)[0])
-            ctx.case_done(('sf', repr(fault_at), tuple(repr(x) for x in k.log if x['kind'] in ('event', 'fork', 'kill', 'wait'))), True)
+            run_faulted(ctx, mons, progs2, script2, fault_at, 'single-fault')
+    # 4. the spawn path: a fault at every pipe() (first, second, third of every spawn) and every fcntl() call inside the real
+    #    make_pipes(), and at every fork(), of a base scenario with loop-driven and API-driven spawns (all indices, both tiers)
+    for b in range(ctx.n(1, 4)):
+        base = spawn_path_base(rng)
+        for progs2, script2, fault_at in fault_points(ctx, base, calls=('pipe', 'fcntl', 'fork'), all_indices=True):
+            run_faulted(ctx, mons, progs2, script2, fault_at, 'spawn-fault')
 
 
 def replay(ctx, data):
     inp = data['input']
+    if inp.get('level') == 'make_pipes':
+        return make_pipes_cases(ctx)
     progs, script = l2.scenario_from_input(inp)
     k = l2.SimKernel(progs, script)
     if inp.get('fault_at'):
@@ -135,11 +322,12 @@ def replay(ctx, data):
         m(ctx, k, inp)
 
 
-TECHNIQUE = "Lean 4: under the per-process bookkeeping invariant no operation the main loop performs raises (transition_ok, finish_ok incl. UNKNOWN, group stop, RPCs), RPC exceptions are contained; fault enumeration over the os-level seam under the unmodified runforever()"
+TECHNIQUE = "Lean 4: make_pipes interpreted from its regenerated statement table over a kernel where any pipe()/fcntl() fails and None descriptors are TypeErrors (fails cleanly, spawn handles it); every decode in dispatchers.py guarded (regenerated handler table); under the per-process bookkeeping invariant no operation the main loop performs raises (transition_ok, finish_ok incl. UNKNOWN, group stop, RPCs), RPC exceptions are contained; fault enumeration over the os-level seam under the unmodified runforever()"
 LEVEL_TEXT = ("no_assertion_in_pass_ops: for every process state satisfying the invariant (which every history preserves), every clock reading, "
               "mood and environment answer, transition/finish/stop_all/start/stop/signal complete without the AssertionError of _assertInState; "
               "daemon_never_asserts: no sequence of main-loop passes, under any environment and any RPCs, ends with an AssertionError escaping the loop "
               "(induction over passes with the daemon invariant SInv); combined with exhaustive single-fault injection at every call index of "
               "base scenarios, hostile output/listener streams, protocol-following listeners with late I/O and signalling-failure stories")
-LEVEL_NOTE = "the theorem covers the Subprocess/daemon logic; dispatcher parsing robustness is C07/C08/C10's models; errnos outside the realistic table are not claimed"
+LEVEL_NOTE = ("the theorems cover the Subprocess/daemon logic, make_pipes/close_fd/spawn exception classes (make_pipes_fails_cleanly, spawn_survives_pipe_failure) and the "
+              "decode sites of dispatchers.py (dispatcher_decodes_guarded); dispatcher parsing robustness is C07/C08/C10's models; errnos outside the realistic table are not claimed")
 DESIGN_REF = "DESIGN.md section 6, C06"
